@@ -6,9 +6,5 @@ import (
 
 // intrinsic2: heavier library models (regexp, time, net, encoding/json, reggen) - see stdmodels.go.
 func (ex *Exec) intrinsic2(name string, fn *ssa.Function, args []Val, caller *frame) (Val, bool) {
-	switch name {
-	case "(*fmt.wrapError).Error", "(*fmt.wrapError).Unwrap":
-		return nil, false
-	}
 	return ex.stdModel(name, fn, args, caller)
 }
